@@ -305,6 +305,16 @@ Section Run.
     accepted (snd (run c i)) = match i_pb i with PubAccept => true | _ => false end.
   Proof. cases c i; intros H; try reflexivity; exfalso; now apply H. Qed.
 
+  (** the destination's successful return is in the trace exactly when a relay was attempted and
+      the destination accepted *)
+  Lemma run_accepted_full c i :
+    accepted (snd (run c i)) =
+    match source_of c i with
+    | Some _ => match i_pb i with PubAccept => true | _ => false end
+    | None => false
+    end.
+  Proof. cases c i; reflexivity. Qed.
+
   (** acked after a relay: the destination's successful return is in the trace, before the Ack *)
   Lemma run_acked_was_accepted c i :
     source_of c i <> None -> fst (run c i) = Acked ->
